@@ -220,7 +220,7 @@ func lcEvalCase(k lcKind, outs []*Outcome, cs lcCase, recv, obj, cfg string) (ba
 		}
 		if t.Op == "call" {
 			switch t.Name {
-			case "(time.Time).IsZero", "(time.Time).Before", "(time.Time).After", "(time.Time).Equal":
+			case "(time.Time).IsZero", "(time.Time).Before", "(time.Time).After", "(time.Time).Equal", "(time.Time).Compare":
 				var vs []int64
 				for _, a := range t.Args {
 					v, ok := timeVal(a)
@@ -237,6 +237,8 @@ func lcEvalCase(k lcKind, outs []*Outcome, cs lcCase, recv, obj, cfg string) (ba
 					return vs[0] < vs[1], true
 				case "(time.Time).After":
 					return vs[0] > vs[1], true
+				case "(time.Time).Compare":
+					return cmp3(vs[0], vs[1]), true
 				default:
 					return vs[0] == vs[1], true
 				}
